@@ -147,6 +147,11 @@ fn layout_scenario<T: Pad>() {
             drop(c);
             collect_cycles();
         }
+        #[cfg(not(feature = "weak-ptrs"))]
+        _ => {
+            drop(c2);
+            drop(c);
+        }
         #[cfg(feature = "weak-ptrs")]
         _ => {
             drop(c2);
